@@ -236,9 +236,16 @@ def pi3_full_forward_iteration(ctx, rep, which=("REDUCE", "HOOK:before_reduce", 
                 continue
             nsite = Site(body, nexts[0][1][1], body.blocks[nexts[0][1][1]]["term"])
             it_ty = nsite.fn["args"][0] if nsite.fn.get("args") else "?"
-            rep.check(it_ty.startswith("std::slice::Iter<"), R, "plain-forward-iterator:" + key, nsite.where,
+            # `.iter().enumerate()` yields every element once, in order, with its position
+            rep.check(it_ty.startswith("std::slice::Iter<") or it_ty.startswith("std::iter::Enumerate<std::slice::Iter<"), R, "plain-forward-iterator:" + key, nsite.where,
                       "iterates %s" % it_ty, "iterates %s (not a plain forward slice iterator: order/coverage changed)" % it_ty)
             it_t = bp.arg_term(nsite.bb, 0)
+            for _ in range(3):
+                en = [st for st in subterms(it_t) if st[0] == "call"]
+                if len(en) == 1 and en[0][2] == "std::iter::Iterator::enumerate" and en[0][1][0] == body.path:
+                    it_t = bp.arg_term(en[0][1][1], 0)
+                else:
+                    break
             iters = [st for st in subterms(it_t) if st[0] == "call"]
             good_src = len(iters) == 1 and iters[0][2] == "core::slice::iter"
             src = None
